@@ -188,7 +188,16 @@ type editStep struct {
 	Edit editSpec `json:"edit"`
 }
 
+// outsideEvent is what a fault of kind "call" or "overlap" carries: an edit
+// of a user file, or a whole other invocation.
+type outsideEvent struct {
+	File   string   `json:"file,omitempty"`
+	Edit   editSpec `json:"edit,omitempty"`
+	Nested *runStep `json:"nested,omitempty"`
+}
+
 type cliStep struct {
+	Par  *parStep  `json:"par,omitempty"`
 	Run  *runStep  `json:"run,omitempty"`
 	Disk *diskStep `json:"disk,omitempty"`
 	Edit *editStep `json:"edit,omitempty"`
@@ -301,6 +310,8 @@ func userFiles(w *simos.World) map[string][]byte {
 // stepInfo is what the classifier knows about an executed step.
 type stepInfo struct {
 	idx      int
+	nested   bool // ran while the step idx was held at one of its operations
+	overlapped bool // another invocation ran while this one was held
 	run      *runStep
 	real     obs
 	ref      obs
@@ -326,6 +337,8 @@ type cliExec struct {
 	res     *core.Result
 	refMemo map[string]obs
 	wrap    func(*cliScenario) json.RawMessage
+	parallel bool // the step being recorded ran at the same time as others
+	depth   int  // how many invocations are held while the current one runs
 	tainted bool // a fault whose consequences the property does not cover has been injected
 }
 
@@ -466,6 +479,8 @@ func (x *cliExec) run() {
 			}
 		case st.Disk != nil:
 			x.applyDisk(st.Disk)
+		case st.Par != nil:
+			x.runPar(i, st.Par)
 		case st.Run != nil:
 			x.runStep(i, st.Run)
 		}
@@ -504,13 +519,8 @@ func (x *cliExec) applyDisk(d *diskStep) {
 	}
 }
 
-func (x *cliExec) runStep(i int, rs *runStep) {
-	files := userFiles(x.w)
-	var stdin []byte
-	if rs.Stdin != "" {
-		stdin = append([]byte(nil), files[simos.Clean(rs.Stdin)]...)
-	}
-	ref := x.reference(rs, files, stdin)
+// specFor is the simulated process a run step asks for.
+func specFor(rs *runStep, stdin []byte) simos.ProcSpec {
 	spec := simos.ProcSpec{SinkLimit: -1, Faults: rs.Faults, PowerLoss: rs.PowerLoss, FifoChunks: rs.Chunks}
 	if rs.SinkLimit != nil {
 		spec.SinkLimit, spec.SinkErr = *rs.SinkLimit, rs.SinkErr
@@ -525,6 +535,17 @@ func (x *cliExec) runStep(i int, rs *runStep) {
 			spec.Stdin.File, spec.Stdin.Offset = rs.Stdin, int64(rs.StdinOffset)
 		}
 	}
+	return spec
+}
+
+func (x *cliExec) runStep(i int, rs *runStep) {
+	files := userFiles(x.w)
+	var stdin []byte
+	if rs.Stdin != "" {
+		stdin = append([]byte(nil), files[simos.Clean(rs.Stdin)]...)
+	}
+	ref := x.reference(rs, files, stdin)
+	spec := specFor(rs, stdin)
 	for _, a := range rs.Argv {
 		if strings.HasPrefix(a, cliFifo+"/") {
 			x.probe("input_given_as_named_pipe")
@@ -539,20 +560,43 @@ func (x *cliExec) runStep(i int, rs *runStep) {
 	}
 	// something else on the machine acts while the process runs: another
 	// program rewrites one of the user's files
+	// - or another gts runs from start to end while this one is held at one
+	// of its operations: it finds whatever this one has done to the cache
+	// directory so far, and this one goes on with whatever the other left
 	x.w.OnCall = func(arg string) {
-		var ev editStep
-		if json.Unmarshal([]byte(arg), &ev) == nil {
-			if d, ok := x.w.GetFile(ev.File); ok {
-				x.w.PutFile(ev.File, ev.Edit.apply(append([]byte(nil), d...)))
+		var ev outsideEvent
+		if json.Unmarshal([]byte(arg), &ev) != nil {
+			return
+		}
+		if ev.Nested != nil {
+			if x.depth >= 2 {
+				return
 			}
+			x.probe("invocation_ran_inside_another")
+			resume := suspendProc(x.w)
+			saved := x.w.OnCall
+			x.depth++
+			x.runStep(i, ev.Nested)
+			x.depth--
+			x.w.OnCall = saved
+			resume()
+			return
+		}
+		if d, ok := x.w.GetFile(ev.File); ok {
+			x.w.PutFile(ev.File, ev.Edit.apply(append([]byte(nil), d...)))
 		}
 	}
 	core.Current = x.sc
 	core.Tick()
 	r := runGts(x.w, rs.Argv, spec)
 	x.w.OnCall = nil
+	x.record(i, rs, r, ref, files, stdin)
+}
+
+// record notes what a finished process did and judges it.
+func (x *cliExec) record(i int, rs *runStep, r procResult, ref obs, files map[string][]byte, stdin []byte) *stepInfo {
 	real := obs{Status: r.Status, Stdout: r.Stdout, Files: userFiles(x.w), Killed: r.Killed, Panic: r.Panic}
-	info := &stepInfo{idx: i, run: rs, real: real, ref: ref, fired: r.Fired, trace: r.Trace, ops: r.Ops, refFiles: files, refStdin: stdin}
+	info := &stepInfo{idx: i, nested: x.depth > 0, run: rs, real: real, ref: ref, fired: r.Fired, trace: r.Trace, ops: r.Ops, refFiles: files, refStdin: stdin}
 	h := sha256.New()
 	h.Write(stdin)
 	h.Write([]byte(filesDigestFull(files)))
@@ -586,7 +630,22 @@ func (x *cliExec) runStep(i int, rs *runStep) {
 		}
 	}
 	info.hit = opened
+	if x.parallel {
+		info.overlapped = true
+		if len(rs.Argv) > 0 && rs.Argv[0] == "cache" {
+			// `gts cache purge` beside running commands is part of their
+			// history, but what it says when a file it listed is gone before
+			// it gets to it is not part of the statement
+			info.faulted = true
+		}
+	}
 	for _, f := range r.Fired {
+		if strings.HasPrefix(f, "overlap@") {
+			// no fault: gts promises its users nothing less when two of them
+			// (or two of one user's shells) work at the same time
+			info.overlapped = true
+			continue
+		}
 		if f != "sink_limit" {
 			info.faulted = true
 		}
@@ -600,6 +659,7 @@ func (x *cliExec) runStep(i int, rs *runStep) {
 	for _, p := range info.created {
 		x.creator[p] = len(x.steps) - 1
 	}
+	return info
 }
 
 // outcome names what the process did with the cache, read off its trace.
@@ -742,6 +802,11 @@ func (x *cliExec) judge(s *stepInfo) {
 		return
 	}
 	class, sig := x.classify(s, what)
+	if s.nested {
+		class = "overlap:" + class + ":inner"
+	} else if s.overlapped {
+		class = "overlap:" + class + ":outer"
+	}
 	// Before blaming the cache: does the uncached run agree with itself? gts
 	// iterates Go maps in a few places; if an ordering ever leaks into the
 	// output, two reference runs differ and nothing about this step replays.
@@ -908,6 +973,42 @@ func cliCandidates(sc *cliScenario) []*cliScenario {
 		c := sc.clone()
 		c.Steps = append(c.Steps[:i], c.Steps[i+1:]...)
 		out = append(out, c)
+	}
+	for i, st := range sc.Steps {
+		if st.Par == nil {
+			continue
+		}
+		// fewer parties, a shorter schedule, no fault on a party
+		for k := range st.Par.Runs {
+			if len(st.Par.Runs) > 1 {
+				c := sc.clone()
+				pr := c.Steps[i].Par
+				pr.Runs = append(pr.Runs[:k], pr.Runs[k+1:]...)
+				var sch [][2]int
+				for _, seg := range pr.Schedule {
+					switch {
+					case seg[0] == k:
+					case seg[0] > k:
+						sch = append(sch, [2]int{seg[0] - 1, seg[1]})
+					default:
+						sch = append(sch, seg)
+					}
+				}
+				pr.Schedule = sch
+				out = append(out, c)
+			}
+			if len(st.Par.Runs[k].Faults) > 0 || st.Par.Runs[k].SinkLimit != nil {
+				c := sc.clone()
+				c.Steps[i].Par.Runs[k].Faults, c.Steps[i].Par.Runs[k].SinkLimit, c.Steps[i].Par.Runs[k].SinkErr = nil, nil, ""
+				out = append(out, c)
+			}
+		}
+		for k := range st.Par.Schedule {
+			c := sc.clone()
+			pr := c.Steps[i].Par
+			pr.Schedule = append(pr.Schedule[:k], pr.Schedule[k+1:]...)
+			out = append(out, c)
+		}
 	}
 	for i, st := range sc.Steps {
 		if st.Run == nil {
